@@ -35,6 +35,8 @@ def tree_ids(ds, acc=None):
 
 def wrappers(prof, p, out):
     """pair every ProfilingDataset wrapper with the sub-pipeline AST it wraps (pre-order)"""
+    while p['op'] in ('concat', 'intersperse') and len(p['ps']) == 1:
+        p = p['ps'][0]          # a concatenation of one dataset is that dataset itself
     out.append((prof, p))
     inner = prof.input_dataset
     v = vars(inner)
